@@ -308,6 +308,17 @@ func genFederationSDL(r *rand.Rand) *genFed {
 			s := pick()
 			mf = append(mf, fmt.Sprintf("%s(v: Int): %s @owner(s: \"%s\")", usedName(usedM), refFor(s, 0), s))
 		}
+		if r.Intn(2) == 0 {
+			// a namespace under Mutation whose fields belong to (possibly) different services: the link itself has no owner
+			usedN := map[string]bool{}
+			var nf []string
+			for i := 0; i < 2+r.Intn(2); i++ {
+				s := pick()
+				nf = append(nf, fmt.Sprintf("%s(v: Int): %s @owner(s: \"%s\")", usedName(usedN), refFor(s, 0), s))
+			}
+			sb.WriteString("type NsMutation @ns { " + strings.Join(nf, " ") + " }\n")
+			mf = append(mf, "nsm: NsMutation!")
+		}
 		sb.WriteString("type Mutation { " + strings.Join(mf, " ") + " }\n")
 	}
 	return &genFed{SDL: sb.String(), Services: svcs}
